@@ -41,6 +41,10 @@ impl Probe {
   pub fn with_counters(c: &crate::ast::Counters) -> Probe {
     Probe { log: Arc::new(Mutex::new(Vec::new())), hook: None, ctr: Some(c.clone()) }
   }
+  /// record a notification (used by callback-assembled subscribers)
+  pub fn push_note(&self, note: Note) {
+    self.push(note)
+  }
   fn push(&self, note: Note) {
     let (pulls, taps) = match &self.ctr {
       Some(c) => (
